@@ -4,6 +4,7 @@ import (
 	"bytes"
 	"encoding/json"
 	"fmt"
+	"strings"
 	"sync"
 	"time"
 
@@ -31,7 +32,7 @@ type c18Params struct {
 func (c18) ID() string    { return "C18" }
 func (c18) Level() string { return "fault_enumeration" }
 func (c18) Rule() string {
-	return "enumerates hostile ClientHello behaviours against real DTLCP servers whose private keys are counting wrappers: repeated cookie-less hellos; a cookie-less hello naming a session the server has cached (its suite offered or not); a valid cookie presented with each covered field changed (version, random, session id, cipher suites, compression methods); every single-byte change (two masks), truncation, extension and removal of a valid cookie; the cookie replayed from another source address (second server connection with the same secret) and to a server with a different / per-connection random secret (no secret given as nil or as an empty slice; with a Config.Rand that returns short reads the secret is still drawn in full); positive controls (same address, hello and secret on a fresh server connection must be accepted and then touch the keys); x configured secret or none x ECC and ECDHE suite. distinct = distinct (variant, parameters); non-trivial = the server answered the hello under test"
+	return "enumerates hostile ClientHello behaviours against real DTLCP servers whose private keys are counting wrappers: repeated cookie-less hellos; a cookie-less hello naming a session the server has cached (its suite offered or not); a valid cookie presented with each covered field changed (version, random, session id, cipher suites, compression methods) or with the same bytes but a field boundary moved; every single-byte change (two masks), truncation, extension and removal of a valid cookie; the cookie replayed from another source address (second server connection with the same secret) and to a server with a different / per-connection random secret (no secret given as nil or as an empty slice; with a Config.Rand that returns short reads the secret is still drawn in full); positive controls (same address, hello and secret on a fresh server connection must be accepted and then touch the keys); x configured secret or none x ECC and ECDHE suite. distinct = distinct (variant, parameters); non-trivial = the server answered the hello under test"
 }
 func (c18) Components() (real, stub []string) {
 	return []string{"dtlcp server (instrumented): cookie generation / verification, cookie loop, certificate selection, key use"},
@@ -54,9 +55,10 @@ func c18Cases() []c18Params {
 					c18List = append(c18List, c18Params{Variant: v, Secret: secret, Suite: su, I: i, Mask: m})
 				}
 				add("cookieless-repeat", 5, 0)
+				add("cookieless-repeat", 40, 0)
 				add("cookieless-then-silent", 0, 0)
 				add("valid-control", 0, 0)
-				for _, f := range []string{"vers", "random", "session", "suites", "suites-order", "compression"} {
+				for _, f := range []string{"vers", "random", "session", "suites", "suites-order", "compression", "shift-sid-suites", "shift-suites-comp"} {
 					add("field:"+f, 0, 0)
 				}
 				for i := 0; i < 32; i++ {
@@ -235,6 +237,10 @@ func (c18) Run(c *Case, src *vs.Src) *Result {
 			sp2.Close()
 		}()
 		h := baseHello(c1.p)
+		if strings.HasPrefix(p.Variant, "field:shift-") {
+			// a session id to borrow bytes from (unknown to the server: no resumption)
+			h.SessionID = NewDRand(c.Seed, "shift-sid").bytes(32)
+		}
 		if cachedID != nil {
 			h.SessionID = cachedID
 			if p.I == 1 {
@@ -320,6 +326,17 @@ func (c18) Run(c *Case, src *vs.Src) *Result {
 			h2.Suites = []uint16{ECC_CBC, p.Suite}
 		case "field:compression":
 			h2.Compression = []byte{0, 1}
+		case "field:shift-sid-suites":
+			// the same bytes in the same order, but the boundary between session id and cipher suites moved:
+			// the last two bytes of the session id become the first cipher suite
+			sid := h.SessionID
+			h2.SessionID = append([]byte{}, sid[:30]...)
+			h2.Suites = append([]uint16{uint16(sid[30])<<8 | uint16(sid[31])}, h.Suites...)
+		case "field:shift-suites-comp":
+			// the last cipher suite becomes two compression methods
+			last := h.Suites[len(h.Suites)-1]
+			h2.Suites = append([]uint16{}, h.Suites[:len(h.Suites)-1]...)
+			h2.Compression = append([]byte{byte(last >> 8), byte(last)}, h.Compression...)
 		case "cookie-byte":
 			h2.Cookie[p.I%len(h2.Cookie)] ^= byte(p.Mask)
 		case "cookie-trunc":
